@@ -4743,9 +4743,12 @@ def scalarise_local_dicts(fn):
                     continue
                 refs = [n for n in ast.walk(fn) if isinstance(n, ast.Name)
                         and n.id == d and isinstance(n.ctx, ast.Load)]
+                # (entries may be re-bound: `d["a"] = e` with a known key is
+                # an assignment of that entry's local)
                 subs = [n for n in ast.walk(fn) if isinstance(
                     n, ast.Subscript) and isinstance(n.value, ast.Name)
-                    and n.value.id == d and isinstance(n.ctx, ast.Load)
+                    and n.value.id == d and isinstance(
+                        n.ctx, (ast.Load, ast.Store))
                     and isinstance(n.slice, ast.Constant)
                     and n.slice.value in keys]
                 if not refs or len(refs) != len(subs):
@@ -4770,8 +4773,10 @@ def scalarise_local_dicts(fn):
                     value=v), st) for k, v in zip(st.value.keys,
                                                   st.value.values)]
                 for sb in subs:
-                    _replace_in(fn, sb, ast.Name(id=names[sb.slice.value],
-                                                 ctx=ast.Load()))
+                    _replace_in(fn, sb, ast.Name(
+                        id=names[sb.slice.value],
+                        ctx=ast.Store() if isinstance(sb.ctx, ast.Store)
+                        else ast.Load()))
                 i = blk.index(st)
                 blk[i:i + 1] = new
                 done = True
